@@ -52,6 +52,7 @@ type Prog struct {
 	PkgOf   map[string]*packages.Package
 	Assumptions map[string]bool
 	needFloatAxioms bool
+	Lemmas map[string][]*LemmaDecl
 }
 
 type LoadConfig struct {
@@ -107,7 +108,7 @@ func Load(cfg LoadConfig) (*Prog, error) {
 		byFn: map[*ssa.Function]*Contract{}, extern: map[string]*Contract{}, specFns: map[string]*specFn{},
 		ssaPkg: map[string]*ssa.Package{}, errGlobals: map[string]bool{}, Files: map[string]*spec.File{},
 		TypeInvs: map[string]*spec.TypeInv{}, Monitors: map[string]*spec.Monitor{}, PkgOf: map[string]*packages.Package{},
-		Assumptions: map[string]bool{}}
+		Assumptions: map[string]bool{}, Lemmas: map[string][]*LemmaDecl{}}
 	for _, sp := range prog.AllPackages() {
 		p.ssaPkg[sp.Pkg.Path()] = sp
 	}
@@ -166,6 +167,13 @@ func (p *Prog) addFile(f *spec.File, pk *packages.Package) error {
 			return fmt.Errorf("%s: duplicate spec function %s", sf.Pos, sf.Name)
 		}
 		p.specFns[key] = &specFn{F: sf, Pkg: tp}
+	}
+	for _, l := range f.Lemmas {
+		path := ""
+		if tp != nil {
+			path = tp.Path()
+		}
+		p.Lemmas[path] = append(p.Lemmas[path], &LemmaDecl{L: l, Pkg: tp})
 	}
 	for _, ti := range f.TypeInvs {
 		if tp != nil {
